@@ -1006,6 +1006,7 @@ func (e *Engine) convert(v Value, from, to types.Type, pos token.Pos) Value {
 func (e *Engine) makeSlice(t types.Type, ln, cp *Term, pos token.Pos) *Slice {
 	st := t.Underlying().(*types.Slice)
 	e.require(e.tt.And(e.tt.Bin(OpSle, e.c64(0), ln), e.tt.Bin(OpSle, ln, cp)), "makeslice", "makeslice: len out of range", pos)
+	e.allocCheck(cp)
 	if isByteType(st.Elem()) {
 		return &Slice{bobj: e.newByteObj(e.tt.ArrConst(nil)), off: e.c64(0), len: ln, cap: cp}
 	}
@@ -1362,4 +1363,30 @@ func (e *Engine) next(fr *frame, x *ssa.Next) Value {
 		return &Tuple{vals: []Value{e.tt.True, it.m.keys[i], it.m.vals[i]}}
 	}
 	return &Tuple{vals: []Value{e.tt.False, e.zero(mt.Key()), e.zero(mt.Elem())}}
+}
+
+// allocCheck: with an allocation limit set by the harness (zzvrf.AllocLimit),
+// every allocation whose element count is symbolic must be provably within
+// the limit - "never allocates in proportion to a length claimed by the data".
+func (e *Engine) allocCheck(n *Term) {
+	if e.allocLimit == 0 || n.op == OpConst || e.spec || e.sol == nil {
+		return
+	}
+	const id = "allocation-bounded-by-input-size"
+	cond := e.tt.Bin(OpUle, n, e.c64(uint64(e.allocLimit)))
+	// prefer a moderate counterexample (replayable natively without exhausting memory)
+	moderate := e.tt.And(e.tt.Not(cond), e.tt.Bin(OpUle, n, e.c64(1<<22)))
+	if r, _ := e.sol.Check(e.pc, moderate, nil); r == Sat {
+		st := e.stat(id)
+		st.Checked++
+		st.Nontrivial++
+		st.Violated++
+		e.reportViolation(id, "assert", "", "", moderate)
+		if e.check(cond) != Sat {
+			panic(pathEnd{"assertstop", id})
+		}
+		e.addPC(cond)
+		return
+	}
+	e.doAssert(cond, id)
 }
